@@ -2,6 +2,8 @@ import GoflowModel.Excellent.Legacy
 import GoflowModel.Excellent.LegacyTable
 import GoflowModel.Lemmas.LegacyFull
 import GoflowModel.Gen.LegacyFuncs
+import GoflowModel.Lemmas.LegacyRefs
+import GoflowModel.Gen.LegacyRefs
 /-!
 # C17 — Legacy expression migration preserves meaning
 
@@ -258,5 +260,105 @@ example :
   decide
 
 end Full
+
+/-! ## Context references -/
+
+section Refs
+open GoflowModel.LegacyRefs GoflowModel.Expr.Full
+
+/-- **A migrated context reference parses back to itself** (names as the printer writes them): for
+every legacy reference — any segments, matched by any rule of the table or by none — the tokens of
+the migrated text parse to the tree the rule means.  (`IndexOK`: an attachment index is a number as
+it renders.) -/
+theorem reference_migration_parses (schemes : List Seg) (raw : Bool) (segs : List Seg) (hi : IndexOK segs) :
+    ∃ f0, ∀ f, f0 ≤ f →
+      parseExpr f 0 (toks (migRef schemes raw segs)) = some (norm (migRef schemes raw segs), []) := by
+  have hs : Shape (.e (norm (migRef schemes raw segs))) := (ga_migRef schemes raw segs hi).1
+  have hp : Full.Parses (.expr 0) (toks (norm (migRef schemes raw segs)) ++ []) (.e (norm (migRef schemes raw segs))) [] :=
+    (complete_of_shape hs).1 0 [] _ [] (Nat.zero_le _) (by simp [Full.quiet]) (by intro q tl hh; cases hh)
+      (.stop (by simp [Full.stops]))
+  rw [List.append_nil, toks_norm] at hp
+  exact holds_of_parses hp
+
+/-- **…and is an atom**: wherever the visitor substitutes it, `operand(·, level)` leaves it alone,
+and no operator around it can regroup it. -/
+theorem reference_never_wrapped (schemes : List Seg) (raw : Bool) (segs : List Seg) (hi : IndexOK segs) (lvl : Nat)
+    (hl : lvl ≤ 14) : LegacyFull.wrapTo lvl (migRef schemes raw segs) = migRef schemes raw segs := by
+  have ha := (ga_migRef schemes raw segs hi).2
+  have := (atom_level ha).1
+  unfold LegacyFull.wrapTo
+  rw [if_neg (by omega)]
+
+/-- **The rules the model transcribes are the table of the source**, in its order (regenerated from
+context.go on every run; `<schemesRe>` stands for the alternation of the URN schemes), and the schemes
+are those of the linked gocommon. -/
+theorem reference_table_as_modelled :
+    Gen.LegacyRefs.mappings = [
+  ("^(?:(?:flow|step)\\.)?((?:parent|child)\\.)?contact$", "${1}contact", false),
+  ("^(?:(?:flow|step)\\.)?((?:parent|child)\\.)?contact\\.uuid$", "${1}contact.uuid", false),
+  ("^(?:(?:flow|step)\\.)?((?:parent|child)\\.)?contact\\.id$", "${1}contact.id", false),
+  ("^(?:(?:flow|step)\\.)?((?:parent|child)\\.)?contact\\.name$", "${1}contact.name", false),
+  ("^(?:(?:flow|step)\\.)?((?:parent|child)\\.)?contact\\.first_name$", "${1}contact.first_name", false),
+  ("^(?:(?:flow|step)\\.)?((?:parent|child)\\.)?contact\\.created_on$", "${1}contact.created_on", false),
+  ("^(?:(?:flow|step)\\.)?((?:parent|child)\\.)?contact\\.language$", "${1}contact.language", false),
+  ("^(?:(?:flow|step)\\.)?((?:parent|child)\\.)?contact\\.groups$", "join(${1}contact.groups, \",\")", false),
+  ("^(?:(?:flow|step)\\.)?((?:parent|child)\\.)?contact\\.tel_e164$", "default(urn_parts(${1}urns.tel).path, \"\")", false),
+  ("^(?:(?:flow|step)\\.)?((?:parent|child)\\.)?contact\\.tel$", "format_urn(${1}urns.tel)", false),
+  ("^(?:(?:flow|step)\\.)?((?:parent|child)\\.)?contact\\.(<schemesRe>)$", "default(urn_parts(${1}urns.$2).path, \"\")", false),
+  ("^(?:(?:flow|step)\\.)?((?:parent|child)\\.)?contact\\.(<schemesRe>)\\.display$", "format_urn(${1}urns.$2)", false),
+  ("^(?:(?:flow|step)\\.)?((?:parent|child)\\.)?contact\\.(<schemesRe>)\\.path$", "urn_parts(${1}urns.$2).path", false),
+  ("^(?:(?:flow|step)\\.)?((?:parent|child)\\.)?contact\\.(<schemesRe>)\\.scheme$", "urn_parts(${1}urns.$2).scheme", false),
+  ("^(?:(?:flow|step)\\.)?((?:parent|child)\\.)?contact\\.(<schemesRe>)\\.urn$", "${1}urns.$2", false),
+  ("^(?:(?:flow|step)\\.)?((?:parent|child)\\.)?contact\\.(\\w+)$", "${1}fields.$2", false),
+  ("^flow$", "results", false),
+  ("^flow\\.(\\w+)$", "results.$1", false),
+  ("^flow\\.(\\w+)\\.value$", "results.$1.value", false),
+  ("^flow\\.(\\w+)\\.category$", "results.$1.category_localized", false),
+  ("^flow\\.(\\w+)\\.text$", "results.$1.input", false),
+  ("^flow\\.(\\w+)\\.time$", "results.$1.created_on", false),
+  ("^child$", "child.results", false),
+  ("^child\\.(\\w+)$", "child.results.$1", false),
+  ("^child\\.(\\w+)\\.value$", "child.results.$1.value", false),
+  ("^child\\.(\\w+)\\.category$", "child.results.$1.category_localized", false),
+  ("^child\\.(\\w+)\\.text$", "child.results.$1.input", false),
+  ("^child\\.(\\w+)\\.time$", "child.results.$1.created_on", false),
+  ("^(?:parent|extra\\.flow)$", "parent.results", false),
+  ("^(?:parent|extra\\.flow)\\.(\\w+)$", "parent.results.$1", false),
+  ("^(?:parent|extra\\.flow)\\.(\\w+)\\.value$", "parent.results.$1.value", false),
+  ("^(?:parent|extra\\.flow)\\.(\\w+)\\.category$", "parent.results.$1.category_localized", false),
+  ("^(?:parent|extra\\.flow)\\.(\\w+)\\.text$", "parent.results.$1.input", false),
+  ("^(?:parent|extra\\.flow)\\.(\\w+)\\.time$", "parent.results.$1.created_on", false),
+  ("^step(\\.value)?$", "input", false),
+  ("^step\\.text$", "input.text", false),
+  ("^step\\.time$", "input.created_on", false),
+  ("^step\\.attachments$", "foreach(foreach(input.attachments, attachment_parts), extract, \"url\")", false),
+  ("^step\\.attachments\\.(\\d+)$", "attachment_parts(input.attachments[$1]).url", false),
+  ("^channel$", "contact.channel.address", false),
+  ("^channel\\.(address|tel|tel_e164)$", "contact.channel.address", false),
+  ("^channel\\.name$", "contact.channel.name", false),
+  ("^date(\\.now)?$", "now()", false),
+  ("^date\\.today$", "today()", true),
+  ("^date\\.tomorrow$", "datetime_add(now(), 1, \"D\")", true),
+  ("^date\\.yesterday$", "datetime_add(now(), -1, \"D\")", true),
+  ("^extra$", "legacy_extra", false),
+  ("^extra\\.([\\w\\.]+)$", "legacy_extra.${1}", false)
+] ∧
+    Gen.LegacyRefs.schemes = ["discord", "mailto", "ext", "facebook", "fcm", "freshchat", "instagram", "jiochat", "line", "tel", "rocketchat", "slack", "telegram", "twitter", "twitterid", "viber", "vk", "webchat", "wechat", "whatsapp"] := by
+  decide
+
+/-- the premise is met and the texts are the ones the Go code writes -/
+example :
+    let sch := Gen.LegacyRefs.schemes.map String.toList
+    render (migRef sch false ["flow".toList, "contact".toList, "tel".toList]) = "format_urn(urns.tel)".toList ∧
+    render (migRef sch false ["step".toList, "attachments".toList, "0".toList]) = "attachment_parts(input.attachments[0]).url".toList ∧
+    render (migRef sch true ["child".toList, "color".toList, "category".toList]) = "child.results.color.category_localized".toList ∧
+    render (migRef sch false ["parent".toList, "contact".toList, "twitterid".toList, "urn".toList]) = "parent.urns.twitterid".toList ∧
+    IndexOK ["step".toList, "attachments".toList, "0".toList] := by
+  refine ⟨by decide, by decide, by decide, by decide, ?_⟩
+  intro d hd _
+  simp only [List.mem_cons, List.not_mem_nil, or_false] at hd
+  rcases hd with rfl | rfl | rfl <;> decide
+
+end Refs
 
 end GoflowModel.Props.C17
